@@ -1,12 +1,19 @@
 package main
 
 import (
+	"bufio"
+	"bytes"
 	"encoding/binary"
 	"encoding/hex"
 	"fmt"
+	"io"
 	"net"
+	"os"
+	"os/exec"
 	"runtime"
+	"strconv"
 	"strings"
+	"syscall"
 	"time"
 
 	"github.com/jcmturner/gofork/encoding/asn1"
@@ -33,12 +40,185 @@ type entryPoint struct {
 	corpus [][]byte
 	call   func(b []byte)
 	model  func(c *Ctx, b []byte, panicked bool) // optional: emit a model case
+	iso    func(b []byte) isoResult              // optional: run the call in a worker process instead (external decoders that can die of a fatal out-of-memory error)
+}
+
+// ---- process isolation for entry points that reach the external NDR decoder (jcmturner/rpc/v2): it allocates by
+// unchecked element counts, and a request of several GiB is a FATAL error of the Go runtime that no recover() sees.
+// The worker is this binary re-executed with VERIF_C04_WORKER=pac under a 256 MiB data-segment limit.
+type isoResult struct {
+	panicked      bool
+	pv            string
+	alloc         uint64
+	el            time.Duration
+	crashed       bool // the worker process died
+	crashExternal bool // ... inside the external decoder
+	detail        string
+}
+
+type c04Worker struct {
+	cmd    *exec.Cmd
+	in     io.WriteCloser
+	out    *bufio.Reader
+	errBuf *bytes.Buffer
+}
+
+var pacW *c04Worker
+
+func init() {
+	if os.Getenv("VERIF_C04_WORKER") == "pac" {
+		lim := syscall.Rlimit{Cur: 256 << 20, Max: 256 << 20}
+		syscall.Setrlimit(syscall.RLIMIT_DATA, &lim)
+		in := bufio.NewReaderSize(os.Stdin, 1<<22)
+		out := bufio.NewWriter(os.Stdout)
+		for {
+			line, err := in.ReadString('\n')
+			if err != nil {
+				os.Exit(0)
+			}
+			f := strings.Fields(line)
+			if len(f) != 2 {
+				os.Exit(0)
+			}
+			b, _ := hex.DecodeString(strings.TrimPrefix(f[0], "x"))
+			kv, _ := hex.DecodeString(strings.TrimPrefix(f[1], "x"))
+			var ms0, ms1 runtime.MemStats
+			runtime.ReadMemStats(&ms0)
+			t0 := time.Now()
+			p, pv := guard(func() {
+				var x pac.PACType
+				if x.Unmarshal(b) == nil {
+					x.ProcessPACInfoBuffers(types.EncryptionKey{KeyType: 18, KeyValue: kv}, nil)
+				}
+			})
+			el := time.Since(t0)
+			runtime.ReadMemStats(&ms1)
+			st := "ok"
+			if p {
+				st = "panic:" + strings.ReplaceAll(strings.ReplaceAll(fmt.Sprint(pv), "\t", " "), "\n", " ")
+			}
+			fmt.Fprintf(out, "%s\t%d\t%d\n", st, ms1.TotalAlloc-ms0.TotalAlloc, el.Microseconds())
+			out.Flush()
+		}
+	}
+}
+
+func startPacWorker() *c04Worker {
+	exe, err := os.Executable()
+	if err != nil {
+		panic(err)
+	}
+	cmd := exec.Command(exe)
+	cmd.Env = append(os.Environ(), "VERIF_C04_WORKER=pac", "GOTRACEBACK=single", "GOMAXPROCS=2")
+	w := &c04Worker{cmd: cmd, errBuf: new(bytes.Buffer)}
+	w.in, _ = cmd.StdinPipe()
+	op, _ := cmd.StdoutPipe()
+	w.out = bufio.NewReaderSize(op, 1<<20)
+	cmd.Stderr = w.errBuf
+	if err := cmd.Start(); err != nil {
+		panic(err)
+	}
+	return w
+}
+
+func pacIsolated(key []byte) func(b []byte) isoResult {
+	return func(b []byte) isoResult {
+		if pacW == nil {
+			pacW = startPacWorker()
+		}
+		w := pacW
+		fmt.Fprintf(w.in, "x%s x%s\n", hex.EncodeToString(b), hex.EncodeToString(key))
+		type rd struct {
+			line string
+			err  error
+		}
+		ch := make(chan rd, 1)
+		go func() { l, e := w.out.ReadString('\n'); ch <- rd{l, e} }()
+		var r rd
+		select {
+		case r = <-ch:
+		case <-time.After(20 * time.Second):
+			w.cmd.Process.Kill()
+			w.cmd.Wait()
+			pacW = nil
+			return isoResult{el: 20 * time.Second, detail: "worker timed out"}
+		}
+		if r.err != nil {
+			w.in.Close()
+			w.cmd.Wait()
+			pacW = nil
+			se := w.errBuf.String()
+			// The crash is charged to gokrb5 only when the failing allocation is large (> 32 MiB) and was requested
+			// from a gokrb5 frame with no external decoder frame above it; a small allocation failing anywhere (also
+			// inside the runtime) is collateral damage of the memory the external decoder took under the limit.
+			ext := true
+			if i := strings.Index(se, "goroutine "); i >= 0 {
+				var size uint64
+				for _, ln := range strings.Split(se[i:], "\n")[1:] {
+					if ln == "" {
+						break
+					}
+					if strings.HasPrefix(ln, "runtime.mallocgc(0x") && size == 0 {
+						h := ln[len("runtime.mallocgc(0x"):]
+						if j := strings.IndexAny(h, ",?)"); j > 0 {
+							size, _ = strconv.ParseUint(h[:j], 16, 64)
+						}
+					}
+					if strings.HasPrefix(ln, "github.com/jcmturner/rpc/") {
+						break
+					}
+					if strings.HasPrefix(ln, "github.com/jcmturner/gokrb5/") {
+						ext = size <= 32<<20
+						break
+					}
+				}
+			}
+			if len(se) > 600 {
+				se = se[:600]
+			}
+			return isoResult{crashed: true, crashExternal: ext, detail: se}
+		}
+		f := strings.Split(strings.TrimRight(r.line, "\n"), "\t")
+		res := isoResult{}
+		if len(f) == 3 {
+			if strings.HasPrefix(f[0], "panic:") {
+				res.panicked, res.pv = true, f[0][6:]
+			}
+			fmt.Sscan(f[1], &res.alloc)
+			var us int64
+			fmt.Sscan(f[2], &us)
+			res.el = time.Duration(us) * time.Microsecond
+		}
+		return res
+	}
 }
 
 func hexs(s string) []byte { b, _ := hex.DecodeString(s); return b }
 
 // one guarded, timed, allocation-metered call
 func probe(c *Ctx, ep *entryPoint, b []byte, kind string) {
+	if ep.iso != nil {
+		r := ep.iso(append([]byte{}, b...))
+		inp := map[string]interface{}{"entry": ep.name, "kind": kind, "input": hex.EncodeToString(b), "isolated": true}
+		if len(b) > 3000 {
+			inp["input"] = hex.EncodeToString(b[:3000]) + "..."
+		}
+		c.Count("entry:" + ep.name)
+		c.Count("mutation:" + kind)
+		if r.crashed {
+			if r.crashExternal {
+				c.Check(false, "allocation in proportion to the input", "alloc:"+ep.name, "fatal out-of-memory inside the external NDR decoder (worker under a 256 MiB data limit)", inp)
+			} else {
+				c.Check(false, "never crashes the process", "fatal:"+ep.name, r.detail, inp)
+			}
+			return
+		}
+		c.Check(!r.panicked, "never panics", "panic:"+ep.name, r.pv, inp)
+		c.Check(r.el < 3*time.Second, "terminates promptly", "hang:"+ep.name, r.el.String()+" "+r.detail, inp)
+		limit := uint64(4<<20) + 4096*uint64(len(b))
+		c.Check(r.alloc <= limit, "allocation in proportion to the input", "alloc:"+ep.name, fmt.Sprintf("%d bytes allocated for %d input bytes", r.alloc, len(b)), inp)
+		return
+	}
 	var ms0, ms1 runtime.MemStats
 	runtime.ReadMemStats(&ms0)
 	done := make(chan struct{})
@@ -320,7 +500,7 @@ func c04(c *Ctx) {
 			if x.Unmarshal(b) == nil {
 				x.ProcessPACInfoBuffers(svc.keys[18], nil)
 			}
-		}},
+		}, iso: pacIsolated(svc.keys[18].KeyValue)},
 		{name: "kadmin.Reply.Unmarshal", corpus: [][]byte{kadminReply, kadminErr}, call: func(b []byte) { var x kadmin.Reply; x.Unmarshal(b) }},
 		{name: "crypto.DecryptMessage(aes256-sha1)", corpus: [][]byte{ct18.Cipher}, call: func(b []byte) { crypto.DecryptMessage(b, svc.keys[18], 2) }, model: decModel(18)},
 		{name: "crypto.DecryptMessage(rc4)", corpus: [][]byte{ct23.Cipher}, call: func(b []byte) { crypto.DecryptMessage(b, svc.keys[23], 2) }, model: decModel(23)},
